@@ -470,10 +470,16 @@ class Gen:
             argv = self.arg() if r.random() < 0.85 else [("push", r.choice([0, 1, 5, 7]))]
             place += argv + [("push", base + n), "MSTORE"]
             n += 32
-        salt = r.choice([[("push", 0)], [("push", 1)], [("push", 5)], [("pushn", 32, (1 << 256) - 1)], self.arg(), self.arg(), ["CALLER"]])
+        twice = r.random() < 0.35
+        salts = [[("push", 0)], [("push", 1)], [("push", 5)], [("pushn", 32, (1 << 256) - 1)], ["CALLER"]]
+        if not (twice and kind == "args"):
+            # (a constructor that branches on `argument == constant` pins the calldata word: halmos then reads it back as
+            #  the constant, and the second creation would be SPELLED differently from the first)
+            salts += [self.arg(), self.arg()]
+        salt = r.choice(salts)
         value = [("push", r.choice([0, 0, 0, 1, 1000]))] if r.random() < 0.8 else self.arg()
-        create = place + salt + [("push", n), ("push", base)] + value + ["CREATE2"]
-        items = create + [("push", 192), "MSTORE"]
+        again = salt + [("push", n), ("push", base)] + value + ["CREATE2"]       # the init code stays where it is
+        items = place + again + [("push", 192), "MSTORE"]
         c = r.random()
         if c < 0.35:
             items += ["RETURNDATASIZE", ("push", 160), "MSTORE"]
@@ -488,9 +494,9 @@ class Gen:
             if kindc == "CALL":
                 items += [("push", r.choice([0, 0, 1]))]
             items += [("push", 192), "MLOAD", ("push", 100000), kindc, ("push", 224), "MSTORE"]
-        if r.random() < 0.35:
+        if twice:
             # the very same creation again: the address is taken if (and only if) the first one succeeded
-            items += create + [("push", 64), "MSTORE", "RETURNDATASIZE", ("push", 32), "MSTORE"]
+            items += again + [("push", 64), "MSTORE", "RETURNDATASIZE", ("push", 32), "MSTORE"]
         if r.random() < 0.3:
             # a CREATE afterwards gets the first address of the CREATE scheme: CREATE2 does not consume the counter
             tiny = assemble([("push", 0xFE), "PUSH0", "MSTORE8", ("push", 1), "PUSH0", "RETURN"])
